@@ -368,7 +368,7 @@ func (ex *Exec) verifCall(fn *ssa.Function, args []Value, fr *Frame) Value {
 		panic(pathEnd{"thread-done"})
 	case "verifAtomic":
 		if ex.inThread() {
-			ex.tmEvent(&Event{Kind: "atomic-begin", Name: "verifAtomic"})
+			ex.tmEvent(&Event{Kind: "atomic-begin", Name: "verifAtomic", Pos: ex.curPos})
 			ex.tm.atomic++
 			ex.invoke(args[0].(*FuncV), nil, fr)
 			ex.tm.atomic--
